@@ -11,6 +11,7 @@ from liquid2 import Tag
 from liquid2 import TagToken
 from liquid2 import TokenStream
 from liquid2.builtin import parse_string_or_identifier
+from liquid2.builtin import string_or_identifier_str
 from liquid2.exceptions import LiquidSyntaxError
 
 if TYPE_CHECKING:
@@ -31,7 +32,8 @@ class DecrementNode(Node):
 
     def __str__(self) -> str:
         assert isinstance(self.token, TagToken)
-        return f"{{%{self.token.wc[0]} decrement {self.name} {self.token.wc[1]}%}}"
+        name = string_or_identifier_str(self.name)
+        return f"{{%{self.token.wc[0]} decrement {name} {self.token.wc[1]}%}}"
 
     def render_to_output(self, context: RenderContext, buffer: TextIO) -> int:
         """Render the node to the output buffer."""
